@@ -346,7 +346,7 @@ def shard_fn(shard, nshards, seed, tier, exe, nhist):
 def run(tier, seed):
     bdir = build.build("asan")
     chk = core.Check(PID, tier, seed)
-    sh = core.parallel(shard_fn, seed=seed, tier=tier, exe=bdir + "/jcdrv", nhist=4800 if tier == "quick" else 200000)
+    sh = core.parallel(shard_fn, seed=seed, tier=tier, exe=bdir + "/jcdrv", nhist=24000 if tier == "quick" else 200000)
     chk.absorb(sh)
     chk.rule = ("histories of 30-300 API calls over a pool of 24 handles generated ONLINE against an ownership model (owner multisets: external handles + container slots; no cycles; the caller owns what it "
                 "transfers): constructors, get, put, object add/replace/delete, array add/put_idx/insert_idx/del_idx, set_userdata/set_serializer replacing a callback, deep copy with a tracking shallow-copy "
